@@ -18,7 +18,8 @@ FEATURE_SETS = {
     "default": [],
     "none": ["--no-default-features"],
     "bigdecimal": ["--no-default-features", "--features", "bigdecimal"],
-    "chrono": ["--no-default-features", "--features", "chrono"],
+    # `chrono` alone does not build on this tree (features/chrono.rs imports bigdecimal::FromPrimitive): not a configuration
+    "chrono_bigdecimal": ["--no-default-features", "--features", "chrono,bigdecimal"],
     "uuid": ["--no-default-features", "--features", "uuid"],
 }
 
